@@ -343,7 +343,8 @@ def pool(contract, seed=0, limit=4000):
         docs = schemas.quick()
         for kw in ("if", "then", "$defs", "unevaluatedItems"):
             docs += [{kw: {}}, {"type": "string", kw: {}}, {"contains": {kw: {}}}, {"propertyNames": {kw: True}}, {"additionalProperties": {kw: {}}},
-                     {"items": [{}], "additionalItems": {kw: {}}}]
+                     {"items": [{}], "additionalItems": {kw: {}}}, {"additionalItems": {kw: {}}}, {"items": {"type": "string"}, "additionalItems": {kw: {}}},
+                     {"properties": {"a": {}}, "additionalProperties": {kw: {}}}]
         yield from cap((fn, (copy.deepcopy(d), None)) for d in docs)
         return
     if cls_name == "Object" and meth == "__new__":
